@@ -1,9 +1,12 @@
 """Run checks against the seeded defects in /verif/seeded/<id>/patch.diff.
 
-usage: seedtest.py [seed-id ...] [--checks C01,C05] [--tier quick]
+usage: seedtest.py [seed-id ...] [--checks C01,C05 | --own] [--tier quick] [--worktree DIR]
 For each seed: git -C /repo apply <patch>; run the checks; git -C /repo checkout -- . ;
 prints one line per (seed, check): exit code and the violation signatures reported.
-Never leaves the patch applied (also on error)."""
+Never leaves the patch applied (also on error).
+With --worktree DIR the patch is applied in that scratch worktree of /repo instead (created with
+`git -C /repo worktree add --detach DIR HEAD`, outside /repo and /verif) and the checks run with
+VERIF_REPO=DIR, so several seeds can be tried side by side without touching /repo."""
 import json
 import os
 import subprocess
@@ -22,6 +25,7 @@ DEFAULT = {  # which checks are expected to be relevant for a seed of property X
 def main():
     args = sys.argv[1:]
     checks = None
+    repo = "/repo"
     tier = "quick"
     seeds = []
     i = 0
@@ -35,21 +39,27 @@ def main():
         elif args[i] == "--tier":
             tier = args[i + 1]
             i += 2
+        elif args[i] == "--worktree":
+            repo = args[i + 1]
+            i += 2
         else:
             seeds.append(args[i])
             i += 1
     if not seeds:
         seeds = sorted(os.listdir(os.path.join(HERE, "seeded")))
-    st = subprocess.run(["git", "-C", "/repo", "status", "--porcelain", "--", "mysensors"],
+    st = subprocess.run(["git", "-C", repo, "status", "--porcelain", "--", "mysensors"],
                         capture_output=True, text=True).stdout.strip()
     if st:
-        sys.exit("refusing: /repo has local modifications:\n" + st)
+        sys.exit(f"refusing: {repo} has local modifications:\n" + st)
+    env = dict(os.environ)
+    if repo != "/repo":
+        env["VERIF_REPO"] = repo
     results = {}
     for seed in seeds:
         patch = os.path.join(HERE, "seeded", seed, "patch.diff")
         prop = seed.split("-")[0]
         todo = [prop] if checks == "own" else (checks or DEFAULT.get(prop, [prop]))
-        r = subprocess.run(["git", "-C", "/repo", "apply", patch], capture_output=True, text=True)
+        r = subprocess.run(["git", "-C", repo, "apply", patch], capture_output=True, text=True)
         if r.returncode:
             print(f"{seed}: patch does not apply: {r.stderr.strip()[:200]}")
             continue
@@ -57,7 +67,7 @@ def main():
             for chk in todo:
                 t0 = time.time()
                 p = subprocess.run([os.path.join(HERE, "check"), chk, "--tier", tier],
-                                   capture_output=True, text=True, cwd=HERE)
+                                   capture_output=True, text=True, cwd=HERE, env=env)
                 sigs = [ln.strip()[len("signature: "):] for ln in p.stdout.splitlines()
                         if ln.strip().startswith("signature:")]
                 other = [ln for ln in p.stdout.splitlines()
@@ -70,10 +80,11 @@ def main():
                 for s in other[:3]:
                     print("     ", s[:260])
         finally:
-            subprocess.run(["git", "-C", "/repo", "checkout", "--", "."], check=True)
+            subprocess.run(["git", "-C", repo, "checkout", "--", "."], check=True)
     out = {f"{k[0]}|{k[1]}": {"exit": v[0], "signatures": v[1], "other": v[2]}
            for k, v in results.items()}
-    with open("/tmp/seedtest_results.json", "w") as fh:
+    with open(f"/tmp/seedtest_results{'_' + os.path.basename(repo) if repo != '/repo' else ''}.json",
+              "w") as fh:
         json.dump(out, fh, indent=1)
 
 
